@@ -25,8 +25,11 @@
 #include <amgcl/coarsening/smoothed_aggregation.hpp>
 #include <amgcl/relaxation/spai0.hpp>
 #include <amgcl/solver/cg.hpp>
+#include <array>
+#include <map>
 #include <boost/range/iterator_range.hpp>
 #include "c17_common.hpp"
+#include "c17_block2.hpp"
 
 using namespace vf;
 using namespace c17;
@@ -59,6 +62,7 @@ static Source gen_source(Tape &t, bool square_only, std::string &fam, bool &shuf
     s.x = gen_vec(t, static_cast<size_t>(s.A.m)); s.y0 = gen_vec(t, static_cast<size_t>(s.A.n));
     s.alpha = t.b() ? 1.0 : static_cast<double>(t.u(-3, 3)); s.beta = t.b() ? 0.0 : static_cast<double>(t.u(-3, 3));
     s.finish();
+    s.sched = gen_schedule(t, s.A.n);
     return s;
 }
 
@@ -89,17 +93,6 @@ void check_tuple_types(const Source &src, const std::string &tag, bool data_ptrs
     require_spmv(K, src, "crs<double," + tag + ">(ranges)");
     require_copy<double, CT, PT>(T1, src, "tuple<" + tag + "> -> crs<double," + tag + ">", true);
 }
-
-struct RowBuilder {
-    typedef double val_type;
-    typedef long col_type;
-    const Csr<double> *A;
-    size_t rows() const { return static_cast<size_t>(A->n); }
-    size_t nonzeros() const { return static_cast<size_t>(A->nnz()); }
-    void operator()(size_t row, std::vector<col_type> &col, std::vector<val_type> &val) const {
-        for (ptrdiff_t j = A->ptr[row]; j < A->ptr[row + 1]; ++j) { col.push_back(static_cast<long>(A->col[j])); val.push_back(A->val[j]); }
-    }
-};
 
 static void prop_adapters(Tape &t, Ctx &c) {
     std::string fam; bool shuffled;
@@ -144,19 +137,17 @@ static void prop_adapters(Tape &t, Ctx &c) {
             std::vector<double> y(uy.begin(), uy.end());
             require_spmv_result(y, src, "spmv(map(ublas), ublas::vector)");
         }
-        // block adapter (needs ascending columns: documented)
+        // block adapter over the scalar adapters (needs ascending columns: documented for block_matrix)
         if (A.n % 2 == 0 && !has_unsorted_row(A, 2)) {
-            typedef amgcl::static_matrix<double, 2, 2> blk;
             auto T = std::tie(n, A.ptr, A.col, A.val);
-            auto Bm = ad::block_matrix<blk>(T);
-            VF_REQUIRE(ab::rows(Bm) == n / 2 && ab::cols(Bm) == n / 2, "block_matrix: shape");
-            Dense<double> D(A.n, A.n), G(A.n, A.n);
-            for (ptrdiff_t i = 0; i < A.n; ++i) for (ptrdiff_t j = A.ptr[i]; j < A.ptr[i + 1]; ++j) D(i, A.col[j]) += A.val[j];
-            for (size_t I = 0; I < n / 2; ++I) for (auto a = ab::row_begin(Bm, I); a; ++a) { blk v = a.value(); for (int k = 0; k < 2; ++k) for (int l = 0; l < 2; ++l) G(2 * I + k, 2 * a.col() + l) += v(k, l); }
-            for (size_t k = 0; k < D.a.size(); ++k) VF_REQUIRE(D.a[k] == G.a[k], "block_matrix<2x2>: dense entry " << k / A.n << "," << k % A.n << " = " << G.a[k] << " source " << D.a[k]);
-            std::vector<double> y = src.y0;
-            ab::spmv(src.alpha, ab::crs<blk>(Bm), src.x, src.beta, y);
-            require_spmv_result(y, src, "spmv(crs<2x2>(block_matrix))");
+            check_block2(T, src, "block_matrix<2x2>(tuple)");
+            check_block2(Mb, src, "block_matrix<2x2>(make_matrix(row builder))");
+            std::vector<int> ip = conv<int>(A.ptr), ic = conv<int>(A.col);
+            auto Ti = std::make_tuple(n, amgcl::make_iterator_range(ip.data(), ip.data() + ip.size()), amgcl::make_iterator_range(ic.data(), ic.data() + ic.size()),
+                                      amgcl::make_iterator_range(A.val.data(), A.val.data() + A.val.size()));
+            check_block2(Ti, src, "block_matrix<2x2>(tuple<iterator_range<int*>>)");
+            auto Z = ad::zero_copy(n, A.ptr.data(), A.col.data(), A.val.data());
+            check_block2(*Z, src, "block_matrix<2x2>(zero_copy crs)");
             c.label("block-adapter");
         }
     }
@@ -280,15 +271,6 @@ static void prop_zero_copy(Tape &t, Ctx &c) {
 typedef ab::builtin<double> DB;
 typedef amgcl::make_solver<amgcl::amg<DB, amgcl::coarsening::smoothed_aggregation, amgcl::relaxation::spai0>, amgcl::solver::cg<DB>> CgSolver;
 
-static std::vector<double> nonzero_rhs(Tape &t, const Csr<double> &A, std::string &kind) {
-    int k = static_cast<int>(t.u(0, 3));
-    std::vector<double> f(A.n);
-    if (k == 3) { kind = "A*x"; std::vector<double> xt = gen_vec(t, A.n, 2); for (ptrdiff_t i = 0; i < A.n; ++i) { long double s = 0; for (ptrdiff_t j = A.ptr[i]; j < A.ptr[i + 1]; ++j) s += static_cast<long double>(A.val[j]) * xt[A.col[j]]; f[i] = static_cast<double>(s); } }
-    else { kind = k == 0 ? "ones" : k == 1 ? "ints" : "uniform"; f = gen_vec(t, A.n, k); }
-    bool nz = false; for (double v : f) nz = nz || v != 0; if (!nz) f[0] = 1;
-    return f;
-}
-
 // x0: initial approximation handed to the solver (the drift of the recursively updated residual scales with the largest iterate, which
 // may be the initial one); empty = zero start
 static void require_solves_original(Ctx &c, const std::string &what, const Csr<double> &A, const std::vector<double> &f, const std::vector<double> &x, size_t iters, double resid, double tol,
@@ -350,6 +332,9 @@ void check_reorder(Tape &t, Ctx &c, const Csr<double> &A, const std::vector<doub
         ab::spmv(1.0, Bv, xo, 0.0, y);
         Source s2; s2.A = Bref; s2.x = xo; s2.y0.assign(n, 0.0); s2.finish();
         require_spmv_result(y, s2, tag + ": spmv(reordered_matrix)");
+        s2.sched = gen_schedule(t, Bref.n);   // several row iterators of the view alive at once
+        require_same_rows(Bv, s2, tag + ": reordered_matrix", true, true);
+        require_copy<double, ptrdiff_t, ptrdiff_t>(Bv, s2, tag + ": reordered_matrix", true);
     }
     // documented use: Solver solve(perm(A)); solve(perm(rhs), x_ord); perm.inverse(x_ord, x)
     CgSolver::params p; p.solver.tol = tol; p.solver.maxiter = 200; p.precond.coarse_enough = ce;
@@ -422,6 +407,13 @@ static void prop_scale(Tape &t, Ctx &c) {
             Sref.val[j] = a.value();
         }
         VF_REQUIRE(!static_cast<bool>(a), "scaled_matrix: row " << i << " too long");
+    }
+    {   // iterator protocol of the scaled view, and the block adapter on top of it (rows must be in ascending order for block_matrix)
+        Source s3; s3.A = Sref; s3.x = gen_vec(t, n, 2); s3.y0.assign(n, 0.0); s3.finish();
+        s3.sched = gen_schedule(t, Sref.n);
+        require_same_rows(As, s3, "scaled_matrix", true, true);
+        require_copy<double, ptrdiff_t, ptrdiff_t>(As, s3, "scaled_matrix", true); // no SpMV on the view itself (not a builtin-ops type)
+        if (A.n % 2 == 0 && !has_unsorted_row(A, 2)) { check_block2(As, s3, "block_matrix<2x2>(scaled_matrix(tuple))"); c.label("block-over-scaled"); }
     }
     CgSolver::params p; p.solver.tol = tol; p.solver.maxiter = 200; p.precond.coarse_enough = ce;
     CgSolver solve(scale.matrix(T), p);
